@@ -82,6 +82,11 @@ for fn, nm in ((1, 'timingsafe_bcmp'), (2, 'timingsafe_memcmp')):
       note='every n: branch-event counters (goto-instrument --branch) as ghost state in the loop contract, two runs on independent contents',
       assumptions=['C19: data independence is shown on the C abstract machine (branch events of the goto program); compiler-introduced branches and micro-architectural effects are out of scope'])
 
+J('A.bsearch_s', ['C16', 'C02', 'C05', 'C01'], 'A', 'contracts/misc/bsearch_s.spec.c',
+  sources=['src/misc/bsearch_s.c'], overlays={'src/misc/bsearch_s.c': 'contracts/misc/bsearch_s.loops'},
+  enforce='_bsearch_s_chk', functions=['_bsearch_s_chk'], sliced=False, timeout=600, tiers=('dev',), fallback='B.bsearch_s.sz4',
+  note='every nmemb, 4-byte elements, no assumption on the order of the array: comparator arguments in range, a returned pointer is a matching element, termination')
+
 # ---- engine B: copy / concatenate family against the reference model in harness/copyfam.c
 STR_COMMON = ['src/str/safe_str_constraint.c', 'src/str/strnlen_s.c', 'src/ignore_handler_s.c']
 WCS_COMMON = STR_COMMON + ['src/wchar/wcsnlen_s.c']
